@@ -66,6 +66,11 @@ class Contract:
         self.opaque_keeps: list[str] = kw.pop("opaque_keeps", [])
         # region (block) contract: {"anchor": "<statement text>[#n]", "span": k}; key is "Cls.method@label"
         self.region: dict = kw.pop("region", None)
+        # allocates=True (trusted stubs of external constructors): the returned object is newly created (calls.apply_contract)
+        self.allocates: bool = kw.pop("allocates", False)
+        self.stub_defaults: dict[str, str] = kw.pop("stub_defaults", {})  # trusted stubs: defaults of omitted parameters
+        # comps: {ordinal of a map comprehension [e for x in L]: [element invariant clauses over x and `_y`]} (interp._listcomp_map)
+        self.comps: dict[int, list[str]] = kw.pop("comps", {})
         self.specialize: dict[str, list] = kw.pop("specialize", {})  # param -> concrete values (case split, completeness proved)  # labelled assumptions (listed in evidence)
         if kw:
             raise TypeError("unknown contract keys %s for %s" % (list(kw), key))
